@@ -89,6 +89,8 @@ func (e c03Edit) coq() string {
 		return fmt.Sprintf("EMerge %s %d%%nat", b(e.ToServer), e.Idx)
 	case "append":
 		return fmt.Sprintf("EAppend %s %d%%nat %s", b(e.ToServer), e.Idx, emit.Bytes(e.Data))
+	case "strip": // datagram stack only: the model is given the records handed over, not the script
+		return fmt.Sprintf("EDrop %s %d%%nat", b(e.ToServer), e.Idx)
 	}
 	panic("c03: unknown edit " + e.Kind)
 }
@@ -313,6 +315,26 @@ func (m *c03Middle) one(e c03Edit, idx int, r []byte) [][]byte {
 	case "trunc":
 		if same(e.Idx) && e.At < len(r) {
 			return [][]byte{r[:e.At]}
+		}
+	case "strip": // every datagram of the direction (retransmissions too) loses its records of content type Mask
+		if e.ToServer == m.toServer && m.hdr == 13 {
+			var keep []byte
+			b := r
+			for len(b) >= 13 {
+				n := int(b[11])<<8 | int(b[12])
+				if 13+n > len(b) {
+					break
+				}
+				if int(b[0]) != e.Mask {
+					keep = append(keep, b[:13+n]...)
+				}
+				b = b[13+n:]
+			}
+			keep = append(keep, b...)
+			if len(keep) == 0 {
+				return nil
+			}
+			return [][]byte{keep}
 		}
 	case "split":
 		if same(e.Idx) && m.hdr == 13 { // one datagram per record
@@ -1215,6 +1237,11 @@ func c03GenD(out *emit.Out, p params, r *rand.Rand, cfg c03Cfg, exhaustive bool)
 		}
 	}
 	run("untampered")
+	// every ChangeCipherSpec record of one direction, or of both, is removed (from retransmissions too): the
+	// records around it arrive; no endpoint may take the next epoch's records as the signal
+	run("strip-every-ccs", c03Edit{Kind: "strip", ToServer: true, Mask: 20})
+	run("strip-every-ccs", c03Edit{Kind: "strip", ToServer: false, Mask: 20})
+	run("strip-every-ccs", c03Edit{Kind: "strip", ToServer: true, Mask: 20}, c03Edit{Kind: "strip", ToServer: false, Mask: 20})
 	for dir := 0; dir < 2; dir++ {
 		ts := dir == 0
 		dgs := base.Sent[dir]
